@@ -319,6 +319,17 @@ impl MappingInfo {
         Ok((file_path, file_name, self.so_version()))
     }
 
+    /// Path, file name and version of a mapping whose name is to be taken as it is: a mapping
+    /// supplied by the caller, about which a file of the same name on this machine says nothing.
+    pub fn get_mapping_given_path_name_and_version(&self) -> (PathBuf, String, Option<SoVersion>) {
+        let file_path = PathBuf::from(self.name.clone().unwrap_or_default());
+        let file_name = file_path
+            .file_name()
+            .map(|s| s.to_string_lossy().into_owned())
+            .unwrap_or_default();
+        (file_path, file_name, self.so_version())
+    }
+
     pub fn is_contained_in(&self, user_mapping_list: &MappingList) -> bool {
         for user in user_mapping_list {
             // Ignore any mappings that are wholly contained within
